@@ -142,7 +142,14 @@ fn details_roundtrip(rep: &Report, seg_size: u32, k: u32, tables: &[Vec<Vec<Row>
 /// store/load through a real Archive file in batches of 50 samples, as finalize()/the reader do
 fn file_batches(rep: &Report, dir: &std::path::Path, nsamples: usize, ncontigs: usize, tag: usize) {
     let path = format!("{}/coll{}.agc", dir.display(), tag);
-    let sname = |i: usize| format!("sample{:03}#{}", i, i % 2);
+    // sample names: plain, with blanks, with symbols, long, sharing long prefixes
+    let sname = |i: usize| match i % 5 {
+        0 => format!("sample{:03}#{}", i, i % 2),
+        1 => format!("sample {:03} with blanks", i),
+        2 => format!("s{:03}|~!@$%^&*()[]{{}};:,.<>?", i),
+        3 => format!("{}{:03}", "L".repeat(180), i),
+        _ => format!("sample{:03}", i),
+    };
     let cname = |i: usize, j: usize| match j { 0 => format!("chr{} len={} desc", i % 7, 100 + i), 1 => format!("chr{} len={} desc", (i + 1) % 7, 100 + i), _ => format!("scaffold_{}", i * 3 + j) };
     let rows = |i: usize, j: usize| -> Vec<Row> { (0..1 + (i + j) % 3).map(|p| (16 + ((i + p) % 5) as u32, ((i * 7 + p * 3 + j) % 53) as u32, (i + p) % 2 == 0, 40 + ((i * 13 + p) % 30) as u32)).collect() };
     let r = guarded(|| -> Result<(), String> {
